@@ -80,3 +80,51 @@ def joinWith (sep : Char) : List (List Char) → List Char
 def natToDigits (n : Nat) : List Char := (toString n).toList
 
 end Settlus
+
+namespace Settlus
+
+theorem alGet_alSet_ne {α β} [DecidableEq α] (l : List (α × β)) (a k : α) (b : β) (h : k ≠ a) : alGet (alSet l a b) k = alGet l k := by
+  induction l with
+  | nil => simp [alSet, alGet, Ne.symm h]
+  | cons x r ih =>
+    obtain ⟨x1, x2⟩ := x
+    unfold alSet
+    by_cases c : x1 = a
+    · subst c
+      simp [alGet, Ne.symm h]
+    · simp only [c, if_false]
+      unfold alGet
+      by_cases c2 : x1 = k
+      · simp [c2]
+      · simp only [c2, if_false]; exact ih
+
+theorem alGet_alSet_same {α β} [DecidableEq α] (l : List (α × β)) (a : α) (b : β) : alGet (alSet l a b) a = some b := by
+  induction l with
+  | nil => simp [alSet, alGet]
+  | cons x r ih =>
+    obtain ⟨x1, x2⟩ := x
+    unfold alSet
+    by_cases c : x1 = a
+    · subst c; simp [alGet]
+    · simp only [c, if_false]
+      unfold alGet
+      simp only [c, if_false]; exact ih
+
+theorem alGet_alErase_ne {α β} [DecidableEq α] (l : List (α × β)) (a k : α) (h : k ≠ a) : alGet (alErase l a) k = alGet l k := by
+  induction l with
+  | nil => rfl
+  | cons x r ih =>
+    obtain ⟨x1, x2⟩ := x
+    unfold alErase
+    by_cases c : x1 = a
+    · subst c
+      simp only [if_true]
+      rw [ih]
+      simp [alGet, Ne.symm h]
+    · simp only [c, if_false]
+      unfold alGet
+      by_cases c2 : x1 = k
+      · simp [c2]
+      · simp only [c2, if_false]; exact ih
+
+end Settlus
